@@ -24,6 +24,7 @@ CONSTANTS
   InitReg,     \* initial registry content: tag -> digest
   Foreign,     \* digests whose revision pre-exists controlled by a foreign owner
   ForeignAct,  \* ... and whether that revision is Active (the revision of an earlier incarnation of the package, still Active)
+  Legacy,      \* TRUE: the environment may also strip status.currentIdentifier (a status written by an older release)
   MidEnv,      \* TRUE: the environment may also act in the middle of a reconcile
   FixGC        \* FALSE = the code as written; TRUE = candidate repair (victim among non-current)
 
@@ -99,13 +100,20 @@ RegChange == /\ edits < MaxEdits
              /\ \E t \in Tags, d \in D : reg[t] # d /\ reg' = [reg EXCEPT ![t] = d] /\ Log(H("env", "reg", t, d))
              /\ edits' = edits + 1 /\ done' = FALSE
              /\ UNCHANGED <<pkg, revs, dirty>> /\ EnvUnch
+\* the Package's status is what an older release left: it names the current revision but not the identifier (source) that
+\* revision was resolved from. Without the identifier the IfNotPresent shortcut cannot know that the source is unchanged
+\* (added after the seeded change C14-m10 - "no identifier recorded: assume it equals the source" - was missed)
+ForgetId == /\ Legacy /\ edits < MaxEdits /\ pkg.curRev # None /\ pkg.curId # None
+            /\ pkg' = [pkg EXCEPT !.curId = None] /\ Log(H("env", "forgetid", "", ""))
+            /\ edits' = edits + 1 /\ done' = FALSE
+            /\ UNCHANGED <<reg, revs, dirty>> /\ EnvUnch
 \* the revision controller finalises a deleted revision
 Finalize == /\ \E d \in D : /\ revs[d].ex /\ revs[d].del
                             /\ revs' = [revs EXCEPT ![d] = NoRev] /\ Log(H("env", "finalize", d, ""))
             /\ done' = FALSE
             /\ UNCHANGED <<pkg, reg, dirty, edits>> /\ EnvUnch
 
-Env == (MidEnv \/ pc = "idle") /\ (EditSrc \/ EditLimit \/ EditManual \/ EditPull \/ RegChange \/ Finalize)
+Env == (MidEnv \/ pc = "idle") /\ (EditSrc \/ EditLimit \/ EditManual \/ EditPull \/ RegChange \/ ForgetId \/ Finalize)
 
 ----------------------------------------------------------------------------
 (* The reconcile.  f = "ok" | "fail" (error / conflict / crash before: no  *)
